@@ -2,6 +2,7 @@ package main
 
 import (
 	"fmt"
+	"go/token"
 	"strings"
 
 	"golang.org/x/tools/go/ssa"
@@ -172,7 +173,7 @@ func ruleCookieGate(c *Ctx, r *Report) {
 		// first hello, verification on
 		w := &Walk{Fn: f0, Assume: assumeAll(atomAssume{mLoad(tCfg, "InsecureSkipHelloVerify"), vBool(false)})}
 		badNext := ""
-		w.Visit = func(in ssa.Instruction, env map[*ssa.Phi]Val) bool {
+		w.Visit = func(in ssa.Instruction, env Env) bool {
 			if call, ok := in.(*ssa.Call); ok && calleeName(&call.Call) == v.pkg+".handleHelloResume" {
 				nv := w.eval(call.Call.Args[len(call.Call.Args)-1], env)
 				if nv != vInt(fl["Flight2"]) {
@@ -425,10 +426,17 @@ func ruleSessionStore(c *Ctx, r *Report) {
 	// (4) fatal alert deletes the session before the alert is written
 	if fn := c.need(r, rule, "(*dtls.Conn).notify"); fn != nil {
 		r.Sites += len(fn.Blocks)
-		dels := dynCallsOfField(fn, tCfg, "DelSession")
-		wr := findCalls(fn, nameIs("(*dtls.Conn).writePackets"))
+		same := followSamePkg(fn)
+		follow := func(f *ssa.Function) bool { return same(f) && !strings.Contains(f.Name(), "writePackets") }
+		dels := callsReached(fn, follow, func(call *ssa.Call) bool {
+			return !call.Call.IsInvoke() && isFieldLoad(call.Call.Value, tCfg, "DelSession")
+		})
+		wr := callsReached(fn, follow, func(call *ssa.Call) bool {
+			n := calleeName(&call.Call)
+			return n == "(*dtls.Conn).writePackets" || n == "(*dtls.Conn).writePacketsWithResult"
+		})
 		if len(dels) != 1 || len(wr) != 1 {
-			r.Bad(rule, short(fn)+":fatal-deletes", c.pos(fn.Pos()), "notify no longer deletes the session / writes the alert at exactly one site each")
+			r.Bad(rule, short(fn)+":fatal-deletes", c.pos(fn.Pos()), fmt.Sprintf("notify (with its helpers) deletes the session at %d site(s) and writes the alert at %d site(s); expected one each", len(dels), len(wr)))
 		} else {
 			al := c.enumConsts("pkg/protocol/alert", "Level")
 			as := []atomAssume{
@@ -436,18 +444,29 @@ func ruleSessionStore(c *Ctx, r *Report) {
 				{mLoad(tCfg, "HasSessionStore"), vBool(true)},
 				{func(v ssa.Value) bool {
 					bo, ok := v.(*ssa.BinOp)
-					if !ok {
+					if !ok || (bo.Op != token.GTR && bo.Op != token.NEQ) {
 						return false
 					}
 					return isLenOfField(bo.X, tCom, "SessionID")
 				}, vBool(true)},
 				{func(v ssa.Value) bool {
+					bo, ok := v.(*ssa.BinOp)
+					if !ok || (bo.Op != token.EQL && bo.Op != token.LEQ) {
+						return false
+					}
+					return isLenOfField(bo.X, tCom, "SessionID")
+				}, vBool(false)},
+				{func(v ssa.Value) bool {
 					// common.LocalVersion == protocol.Version1_2 (struct comparison lowers to field compares)
 					bo, ok := v.(*ssa.BinOp)
-					return ok && strings.Contains(shapeOf(bo, 0), "LocalVersion")
+					return ok && bo.Op == token.EQL && strings.Contains(shapeOf(bo, 0), "LocalVersion")
 				}, vBool(true)},
+				{func(v ssa.Value) bool {
+					bo, ok := v.(*ssa.BinOp)
+					return ok && bo.Op == token.NEQ && strings.Contains(shapeOf(bo, 0), "LocalVersion")
+				}, vBool(false)},
 			}
-			why := passesUnder(fn, as, dels[0], errResult(dels[0]), wr[0])
+			why := passesUnderF(fn, as, dels[0], errResult(dels[0]), wr[0], follow)
 			r.Check(why == "", rule, short(fn)+":fatal-deletes", c.ipos(dels[0]), "fatal alert with a session in a store: DelSession succeeds before the alert is written", "a fatal alert can be sent while the session stays in the store: "+why)
 			r.Check(isCallResult(dels[0].Call.Args[0], nameIs("(*dtls.Conn).sessionKey")), rule, short(fn)+":delete-key", c.ipos(dels[0]), "deleted under the key the session was stored with (sessionKey())", "the session is deleted under a key other than the one it is stored with (client sessions are keyed by address and server name): the entry survives")
 		}
